@@ -291,6 +291,32 @@ func c07Exec(j c07Job) (res c07Res) {
 	w.Invariants()
 	tag("durability", from)
 	w.Unc = nil
+	// "the keysets are unchanged": every keyset the client has seen before the fault is still served with the same
+	// fee and keys (a keyset that a crashed rotation left behind is new to the client, not a change)
+	listed := map[string]uint{}
+	for _, k := range w.M.M.ListKeysets().Keysets {
+		listed[k.Id] = k.InputFeePpk
+	}
+	for _, seen := range w.Keysets {
+		fee, ok := listed[seen.Id]
+		if !ok {
+			res.V = append(res.V, rt.Violation{Property: "C07,C09", Key: where + "/safety/keyset-gone", What: fmt.Sprintf("[%s of %s, fault before %s] keyset %d (%s) seen before the fault is not served after it", j.Mode, sc.Op, res.Fault, seen.Idx, seen.Id)})
+			continue
+		}
+		if fee != seen.Fee {
+			res.V = append(res.V, rt.Violation{Property: "C07,C09", Key: where + "/safety/keyset-fee-changed", What: fmt.Sprintf("[%s of %s, fault before %s] keyset %d was served with input_fee_ppk %d before the fault and %d after it", j.Mode, sc.Op, res.Fault, seen.Idx, seen.Fee, fee)})
+		}
+		if got, err := w.M.M.GetKeysetById(seen.Id); err != nil || len(got.Keys) != len(seen.Keys) {
+			res.V = append(res.V, rt.Violation{Property: "C07,C09", Key: where + "/safety/keyset-keys-changed", What: fmt.Sprintf("[%s of %s, fault before %s] keyset %d: GetKeysetById after the fault: %v, %d keys (had %d)", j.Mode, sc.Op, res.Fault, seen.Idx, err, len(got.Keys), len(seen.Keys))})
+		} else {
+			for a, pk := range got.Keys {
+				if old := seen.Keys[a]; old == nil || !old.IsEqual(pk) {
+					res.V = append(res.V, rt.Violation{Property: "C07,C09", Key: where + "/safety/keyset-keys-changed", What: fmt.Sprintf("[%s of %s, fault before %s] keyset %d: the public key for amount %d differs after the fault", j.Mode, sc.Op, res.Fault, seen.Idx, a)})
+					break
+				}
+			}
+		}
+	}
 	// the client learns the truth by polls / state checks / restore
 	if sc.Final != "" {
 		for _, m := range w.Melts {
